@@ -192,7 +192,44 @@ def case_strategy():
     )
 
 
+def divmod_cases():
+    """systematic family  x[(a*j + b*i + c) op d + off]  under  for i in seq(lo, hi): for j in seq(0, 3)
+    -- every branch of the division / modulo normaliser (divisible terms, provably small
+    remainders, negative and >= d constants, composite divisors)"""
+    val = {"fill": 1, "layout": 0, "cfg": [0, 0, 0, 0, 0], "pick": 0}
+    for op in ("/", "%"):
+        for d in (2, 3, 4, 6, 8, 16):
+            for a in (0, 2, 3, 4, 8, 9):
+                for b in (0, 1, -1, 3):
+                    if a == 0 and b == 0:
+                        continue
+                    for c in (-5, -4, -1, 0, 1, 3, 5, 7, 9):
+                        for lo, hi in ((0, 3), (1, 4), (2, 5), (0, 8), (1, 2)):
+                            terms = []
+                            if a:
+                                terms.append(f"{a} * j")
+                            if b:
+                                terms.append("i" if b == 1 else ("-i" if b == -1 and not terms else (f"{b} * i" if b > 0 else "- i")))
+                            e = " + ".join(terms).replace("+ - i", "- i")
+                            if c:
+                                e += f" + {c}" if c > 0 else f" - {-c}"
+                            # smallest value over the iteration space, to keep the subscript in range
+                            vals = [(a * j + b * i + c) // d if op == "/" else (a * j + b * i + c) % d for i in range(lo, hi) for j in range(3)]
+                            off = -min(vals)
+                            ext = max(vals) + off + 1
+                            idx = f"({e}) {op} {d}" + (f" + {off}" if off else "")
+                            prog = {
+                                "prec": "f32", "cfg": False, "callees": [],
+                                "main": {"name": "foo", "args": [{"name": "x", "kind": "tensor", "prec": "f32", "dims": [str(ext)], "mem": "DRAM"}], "preds": [],
+                                         "body": [["for", "i", str(lo), str(hi), [["for", "j", "0", "3", [["reduce", "x", [idx], "1.0"]], "seq"]], "seq"]]},
+                            }
+                            yield {"prog": prog, "prep": [], "norm": ["simplify", 0, 0], "val": val}
+
+
 def run(ctx):
     global CTX
     CTX = ctx
+    from ..common import run_systematic
+
+    run_systematic(ctx, divmod_cases(), guarded(ctx, check_case), keep_one_in=12 if ctx.tier == "quick" else 1, label="systematic-divmod")
     run_cases(ctx, case_strategy(), guarded(ctx, check_case), ctx.budget(2400, 100000))
